@@ -613,4 +613,105 @@ theorem keys_joinExpsFrom (acc ps : List (Str × Int)) :
     · rw [keys_addExp_mem acc k e hk]; simp [dedupFrom, hk]
     · rw [keys_addExp_not_mem acc k e hk]; simp [dedupFrom, hk]
 
+/-! ### renaming the keys of a joined list (unit symbol ↦ registered unit name) -/
+
+theorem addExp_rename (f : Str → Str) (acc : List (Str × Int)) (k : Str) (e : Int)
+    (hinj : ∀ a ∈ keys acc, f a = f k → a = k) :
+    addExp (acc.map (fun p => (f p.1, p.2))) (f k) e = (addExp acc k e).map (fun p => (f p.1, p.2)) := by
+  induction acc with
+  | nil => simp [addExp]
+  | cons p rest ih =>
+    obtain ⟨v, x⟩ := p
+    have hrest : ∀ a ∈ keys rest, f a = f k → a = k := fun a ha => hinj a (by simp [keys] at ha ⊢; exact Or.inr ha)
+    by_cases hv : v = k
+    · subst hv; simp [addExp]
+    · have hfv : f v ≠ f k := fun h => hv (hinj v (by simp [keys]) h)
+      simp only [List.map_cons, addExp, hv, hfv, if_false]
+      rw [ih hrest]
+
+theorem joinExpsFrom_rename (f : Str → Str) (acc ps : List (Str × Int))
+    (hinj : ∀ a ∈ keys acc ++ keys ps, ∀ b ∈ keys acc ++ keys ps, f a = f b → a = b) :
+    joinExpsFrom (acc.map (fun p => (f p.1, p.2))) (ps.map (fun p => (f p.1, p.2)))
+      = (joinExpsFrom acc ps).map (fun p => (f p.1, p.2)) := by
+  induction ps generalizing acc with
+  | nil => simp [joinExpsFrom]
+  | cons p rest ih =>
+    obtain ⟨k, e⟩ := p
+    simp only [List.map_cons, joinExpsFrom]
+    have hk : k ∈ keys acc ++ keys ((k, e) :: rest) := by simp [keys]
+    rw [addExp_rename f acc k e (fun a ha h => hinj a (List.mem_append_left _ ha) k hk h)]
+    apply ih
+    intro a ha b hb
+    have sub : ∀ x, x ∈ keys (addExp acc k e) ++ keys rest → x ∈ keys acc ++ keys ((k, e) :: rest) := by
+      intro x hx
+      rcases List.mem_append.mp hx with h | h
+      · rcases (mem_keys_addExp acc k e x).mp h with h | h
+        · exact List.mem_append_left _ h
+        · subst h; exact hk
+      · exact List.mem_append_right _ (by simp [keys] at h ⊢; exact Or.inr h)
+    exact hinj a (sub a ha) b (sub b hb)
+
+/-- joining after renaming the keys by a function that is injective on them is renaming after joining: the same
+factors, in the same order, with the same exponents -/
+theorem joinExps_rename (f : Str → Str) (ps : List (Str × Int))
+    (hinj : ∀ a ∈ keys ps, ∀ b ∈ keys ps, f a = f b → a = b) :
+    joinExps (ps.map (fun p => (f p.1, p.2))) = (joinExps ps).map (fun p => (f p.1, p.2)) := by
+  have := joinExpsFrom_rename f [] ps (by simpa [keys] using hinj)
+  simpa [joinExps] using this
+
+/-! ### `OrderedDict(zip(category, unit))` -/
+
+theorem odictSet_fresh (acc : List Entry) (e : Entry) (h : ∀ x ∈ acc, x.cat ≠ e.cat) :
+    odictSet acc e = acc ++ [e] := by
+  induction acc with
+  | nil => rfl
+  | cons x rest ih =>
+    have hx : x.cat ≠ e.cat := h x (by simp)
+    simp only [odictSet, hx, if_false, List.cons_append]
+    rw [ih (fun y hy => h y (by simp [hy]))]
+
+theorem foldl_odictSet_nodup (acc es : List Entry) (h : ((acc ++ es).map (·.cat)).Nodup) :
+    es.foldl odictSet acc = acc ++ es := by
+  induction es generalizing acc with
+  | nil => simp
+  | cons e rest ih =>
+    simp only [List.foldl_cons]
+    have hfresh : ∀ x ∈ acc, x.cat ≠ e.cat := by
+      intro x hx heq
+      rw [List.map_append, List.nodup_append] at h
+      exact h.2.2 x.cat (List.mem_map.mpr ⟨x, hx, rfl⟩) e.cat (by simp) heq
+    rw [odictSet_fresh acc e hfresh, ih]
+    · simp
+    · simpa using h
+
+/-- a request with pairwise different categories is its own ordered dict -/
+theorem odictOf_nodup (es : List Entry) (h : (es.map (·.cat)).Nodup) : odictOf es = es := by
+  have := foldl_odictSet_nodup [] es (by simpa using h)
+  simpa [odictOf] using this
+
+theorem zipEntries_cats (cats : List Str) (pairs : List (Str × Int)) (h : cats.length = pairs.length) :
+    (zipEntries cats pairs).map (·.cat) = cats := by
+  induction cats generalizing pairs with
+  | nil => cases pairs <;> simp [zipEntries]
+  | cons c cs ih =>
+    cases pairs with
+    | nil => simp at h
+    | cons p ps =>
+      obtain ⟨u, x⟩ := p
+      simp only [zipEntries, List.map_cons, List.cons.injEq, true_and]
+      exact ih ps (by simpa using h)
+
+theorem zipEntries_unitPairs (cats : List Str) (pairs : List (Str × Int)) (h : cats.length = pairs.length) :
+    unitPairs (zipEntries cats pairs) = pairs := by
+  induction cats generalizing pairs with
+  | nil => cases pairs <;> simp_all [zipEntries, unitPairs]
+  | cons c cs ih =>
+    cases pairs with
+    | nil => simp at h
+    | cons p ps =>
+      obtain ⟨u, x⟩ := p
+      have := ih ps (by simpa using h)
+      simp only [unitPairs] at this ⊢
+      simp [zipEntries, this]
+
 end Barril.Str
